@@ -348,7 +348,11 @@ def run_tabs(ctx, shard, tun):
                 hs, hf = rng.choice([(k, p - o) for k, o in enumerate(opens) if 0 <= p - o <= 24])
                 nobj = t.get_Note(hs, hf)
                 w["carries"] = {"string": hs, "fret": hf}
-            st, txt = ctx.call(TAB.from_Note, nobj, width, t)
+            if t is default and rng.random() < 0.5:
+                st, txt = ctx.call(TAB.from_Note, nobj, width)         # (the default tuning, by leaving the argument out)
+                w["tuning_argument"] = "left out"
+            else:
+                st, txt = ctx.call(TAB.from_Note, nobj, width, t)
             if not can:
                 ctx.check("tab: an entry with no possible fingering raises the fingering/range error", st == "exc" and
                           isinstance(txt, (RangeError, FingerError)), w, "RangeError", repr(txt)[:200], mechanism="tab-unplayable:note")
@@ -366,7 +370,11 @@ def run_tabs(ctx, shard, tun):
                 if objs and sorted(int(x) for x in objs) == sorted(ps):
                     nc = NoteContainer(objs)
                     w["carries"] = [[x.string, x.fret] for x in objs]
-            st, txt = ctx.call(TAB.from_NoteContainer, nc, width, t)
+            if t is default and rng.random() < 0.5:
+                st, txt = ctx.call(TAB.from_NoteContainer, nc, width)
+                w["tuning_argument"] = "left out"
+            else:
+                st, txt = ctx.call(TAB.from_NoteContainer, nc, width, t)
             if not playable(opens, ps):
                 ctx.check("tab: an entry with no possible fingering raises the fingering/range error", st == "exc" and
                           isinstance(txt, (RangeError, FingerError)), w, "FingerError", repr(txt)[:200], mechanism="tab-unplayable:container")
